@@ -33,7 +33,8 @@ pub fn corpus(tier_full: bool) -> Vec<Program> {
     // modules and scoping fragments
     for f in [7usize, 4] {
         for (i, p) in frags::fragment(f, false).programs.into_iter().enumerate() {
-            if f == 4 && i % 6 != 0 && !tier_full {
+            // every 6th scoping program, and always those that use the built-in function
+            if f == 4 && i % 6 != 0 && !tier_full && !print(&p).texts.iter().any(|(_, t)| t.contains("concat")) {
                 continue;
             }
             out.push(p);
